@@ -11,6 +11,10 @@ cleanup() { git -C /repo worktree remove --force "$W" 2>/dev/null; rm -rf "$W"; 
 trap cleanup EXIT
 cd "$W"
 export CARGO_TARGET_DIR=/tmp/cm-target     # shared build cache across confirmations (same sources mostly)
+# a demonstration may ask for the library's own scheduling hooks (cfg(yamaquasi_verif)) to force an interleaving
+DEMOFLAGS=""
+grep -qs "cfg yamaquasi_verif" "$M"/demo.rs "$M"/demo.patch 2>/dev/null && DEMOFLAGS="--cfg yamaquasi_verif --check-cfg cfg(yamaquasi_verif)"
+rundemo() { RUSTFLAGS="$DEMOFLAGS" $DEMO; }
 install_demo() {
   if [ -f "$M/demo.rs" ]; then mkdir -p tests; cp "$M/demo.rs" tests/mutant_demo.rs; DEMO="cargo test --offline -j 6 --test mutant_demo";
   elif [ -f "$M/demo.patch" ]; then patch -p1 -s --no-backup-if-mismatch < "$M/demo.patch" || return 1
@@ -19,13 +23,13 @@ install_demo() {
 }
 # 4: demo passes on the clean tree
 install_demo || { echo "NOT-CONFIRMED demo does not install"; exit 1; }
-if ! $DEMO > "$W/demo_clean.log" 2>&1; then echo "NOT-CONFIRMED demo fails on the clean tree"; tail -15 "$W/demo_clean.log"; exit 1; fi
+if ! rundemo > "$W/demo_clean.log" 2>&1; then echo "NOT-CONFIRMED demo fails on the clean tree"; tail -15 "$W/demo_clean.log"; exit 1; fi
 grep -qE "test result: ok. [1-9]" "$W/demo_clean.log" || { echo "NOT-CONFIRMED demo ran no test on clean tree"; exit 1; }
 # 1: apply
 (git apply --3way "$M/patch.diff" 2>/dev/null || patch -p1 -s --no-backup-if-mismatch < "$M/patch.diff") || { echo "NOT-CONFIRMED patch does not apply"; exit 1; }
 git diff --name-only --diff-filter=U | grep -q . && { echo "NOT-CONFIRMED merge conflict"; exit 1; }
 # 3: demo fails with the change
-if $DEMO > "$W/demo_mut.log" 2>&1; then echo "NOT-CONFIRMED demo passes with the change"; exit 1; fi
+if rundemo > "$W/demo_mut.log" 2>&1; then echo "NOT-CONFIRMED demo passes with the change"; exit 1; fi
 grep -qE "error(\[E[0-9]+\])?:" "$W/demo_mut.log" && grep -q "could not compile" "$W/demo_mut.log" && { echo "NOT-CONFIRMED does not compile"; tail -20 "$W/demo_mut.log"; exit 1; }
 # 2: suite passes with the change (without the demo)
 rm -f tests/mutant_demo.rs; [ -f "$M/demo.patch" ] && patch -p1 -R -s --no-backup-if-mismatch < "$M/demo.patch"
